@@ -119,6 +119,7 @@ Emit ==
                                   sure |-> ClassSure(X, A, B),
                                   cmpab |-> CmpCos(X, A, B),
                                   onedge |-> OnEdge(X, A, B),
+                                  pole |-> A # B /\ IsZero(Foot(X, A, B)),
                                   min |-> MinCos(X, A, B),
                                   max |-> MaxCos(X, A, B),
                                   foot |-> IF Interior(X, A, B) THEN Foot(X, A, B) ELSE <<0, 0, 0>>,
